@@ -13,9 +13,10 @@ Print Assumptions C16_completion_events.
 
 (* every retry started is counted exactly once: in the complete log of any execution through any
    stack each event's Retries equals the number of OnRetry events so far (so OnRetry fires once
-   per retry actually started), Executions the number of function returns so far *)
+   per retry actually started), Hedges the number of OnHedge events so far (once per hedge started),
+   Executions the number of function returns so far *)
 Theorem C16_retry_events_counted_once : forall fuel stack now ext key b l k c script,
-  trace_ok (w_trace (snd (execute fuel stack (fresh_world now ext key b l k c script)))).
+  trace_ok (w_trace (drain (snd (execute fuel stack (fresh_world now ext key b l k c script))))).
 Proof. exact execution_statistics_exact. Qed.
 Print Assumptions C16_retry_events_counted_once.
 
